@@ -1758,6 +1758,19 @@ def bounded(payload):
             "run": {"max_steps": 3, "t_end": None}, "cap": 12})
         parts["numpy_constant_programs"] = parts.get("numpy_constant_programs", 0) + 1
 
+    # an if_ whose condition is a bare variable that the block itself overwrites (the decision is the value on entry)
+    for x0 in (1, 0):
+        for with_else in (False, True):
+            body = [["if", "<state>armed",
+                     [["assign", "<state>armed", 0], ["assign", "<state>x", ["+", "<state>x", 10]],
+                      ["yield", "<state>x", "y", "<t>", "fired"]],
+                     [["assign", "<state>x", ["+", "<state>x", 1]], ["assign", "<state>armed", 1]] if with_else else None],
+                    ["assign", "<t>", ["+", "<t>", "<dt>"]], ["yield", "<state>x", "y", "<t>", "final"]]
+            consider({"phases": [{"name": "main", "next": "main", "body": body}],
+                      "initial": "main", "funcs": {}, "state": {"x": 0, "y": 1, "armed": x0}, "t0": 0, "dt": 0.5,
+                      "run": {"max_steps": 3, "t_end": None}, "cap": 16})
+            parts["bare_variable_condition_programs"] = parts.get("bare_variable_condition_programs", 0) + 1
+
     # every built-in on a two-dimensional state, a complex vector and a scalar (interpreter's implementation vs generated text)
     for fn, nargs in (("<builtin>norm_1", 1), ("<builtin>norm_2", 1), ("<builtin>norm_inf", 1), ("<builtin>elementwise_abs", 1),
                       ("<builtin>len", 1), ("<builtin>dot_product", 2)):
